@@ -14,6 +14,7 @@ range is an error; picked option is listed, has positive weight, is the one hold
 weight; date / datetime between the bounds *as the instants the user wrote*, both ends observed
 under extreme draws, reversed bounds never give a value.
 """
+import contextlib
 import datetime as _dt
 import re
 import time
@@ -33,7 +34,8 @@ SPEC = {
     "bounds and every admissible draw, that the model's results lie on the lattice / in the support / between the "
     "bounds and that both ends are attained; after the fix commits cfed176 / f914bf1 / e0d1353 the statements about "
     "zero probabilities, written UTC offsets, cache aliasing and equal bounds are proved at full strength (D09, D08, "
-    "D39, D37 are regression inputs); D38 (fractional seconds, Faker) remains a refutation theorem with its witness "
+    "D39, D37 are regression inputs); after 919a3ea the lower bound holds for fractional seconds too (D38 regression "
+    "input); D50 (both bounds in one whole second: the end can be passed) is a refutation theorem with its witness "
     "replayed on the real code; the model is tied to the source by bridging lemmas over pins regenerated on every "
     "run and by draw-for-draw differential runs.",
     "level_note": "Trusted: Lean kernel; py2lean; the harness; CPython random.randrange/choice/choices and Faker's "
@@ -44,7 +46,7 @@ SPEC = {
         "Random._randbelow(n) returns an int in [0, n); Random.random() in [0, 1); Random.uniform(a, b) in [a, b]",
         "date <-> ordinal conversion and ISO parsing are done by Python's datetime / dateutil (not modelled)",
         "weights are modelled as integers; fractional weights are covered by the direct oracle only",
-        "the process time zone is UTC for `today` (date.today()); wall-clock `now` is the value cached by parse_datetimespec",
+        "the process time zone is UTC for `today` (date.today()); wall-clock `now` is frozen per controlled case (datetime.now inside template_funcs returns one instant)",
         "datetime() is modelled for the default target zone (UTC), which is what datetime_between uses for its bounds",
     ],
     "budget": {"quick": 240, "thorough": 1500},
@@ -540,6 +542,11 @@ def _date_arg(spec, for_yaml):
     if spec[0] == "rel":
         return _rel_string(spec[1:8])
     iso, fmt = spec[1], spec[2]
+    if fmt == "aware":
+        # ['abs', date, 'aware', 'HH:MM:SS', offset_minutes]: an aware datetime whose *written* date is `date`
+        if for_yaml:
+            return f"{iso}T{spec[3]}{_offset_text(spec[4])}"
+        return _dt.datetime.fromisoformat(f"{iso}T{spec[3]}").replace(tzinfo=_dt.timezone(_dt.timedelta(minutes=spec[4])))
     if for_yaml:
         return {"date": iso, "str": f'"{iso}"', "datetime": f"{iso}T10:30:00"}[fmt]
     d = _dt.date.fromisoformat(iso)
@@ -557,6 +564,11 @@ def real_date(case, rng):
         if case["via"] == "func":
             f = _functions()
             outs = []
+            for sp in case.get("prime") or []:
+                try:
+                    f.date(_date_arg(sp, False))
+                except Exception:  # noqa
+                    pass
             for _ in range(n):
                 try:
                     v = f.date_between(start_date=_date_arg(case["start"], False), end_date=_date_arg(case["end"], False))
@@ -569,7 +581,10 @@ def real_date(case, rng):
                 except Exception as e:  # noqa
                     outs.append(["error", classify_error(e)])
         else:
-            lines = ["x:", "  date_between:", f"    start_date: {_date_arg(case['start'], True)}",
+            lines = []
+            for j, sp in enumerate(case.get("prime") or []):
+                lines += [f"p{j}:", f"  date: {_date_arg(sp, True)}"]
+            lines += ["x:", "  date_between:", f"    start_date: {_date_arg(case['start'], True)}",
                      f"    end_date: {_date_arg(case['end'], True)}"]
             res = common.run_recipe(_recipe(lines, n, v3=case.get("v3", False)))
             if res.outcome == "ok":
@@ -743,17 +758,42 @@ def _to_us(d):
     return (delta.days * 86400 + delta.seconds) * US + delta.microseconds
 
 
+class _ClockMeta(type):
+    def __instancecheck__(cls, obj):
+        return isinstance(obj, _dt.datetime)
+
+
+@contextlib.contextmanager
+def _frozen_clock(active):
+    """The clock is an input like the draws: in controlled cases `datetime.now()` inside
+    template_funcs returns one frozen instant (since 885750c `now` is evaluated afresh at every use;
+    before, the first value was cached for the life of the process).  Yields that instant."""
+    now = _dt.datetime.now(_dt.timezone.utc)
+    tf = _tf()
+    if not active or getattr(tf, "datetime", None) is not _dt.datetime:
+        yield now
+        return
+
+    class Frozen(_dt.datetime, metaclass=_ClockMeta):
+        @classmethod
+        def now(cls, tz=None):
+            return now.astimezone(tz) if tz is not None else now.replace(tzinfo=None)
+
+    tf.datetime = Frozen
+    try:
+        yield now
+    finally:
+        tf.datetime = _dt.datetime
+
+
 def real_dt(case, rng):
     n = len(case["draws"])
     today0 = _dt.date.today()
     tz = case.get("tz")
     sub = bool(case.get("subsecond"))
     prime = case.get("prime") or []
-    with _ctl(case, rng, subsecond=sub) as ctl:
-        try:
-            cached_now = _tf().parse_datetimespec("now")
-        except Exception:  # noqa
-            cached_now = _dt.datetime.now(_dt.timezone.utc)
+    controlled = not (case["draws"] and case["draws"][0] == "real")
+    with _ctl(case, rng, subsecond=sub) as ctl, _frozen_clock(controlled) as cached_now:
         if case["via"] == "func":
             f = _functions()
             outs = []
@@ -834,9 +874,13 @@ def oracle_dt(rep, case, real):
             if s_lo == e_lo == s_hi == e_hi and 0 < v - e_hi < US:
                 rep.violation("C11:datetime-equal-bounds-overshoot",
                               what + ": after the end although start == end", case, [s_lo, e_hi], v)
-            elif fractional and (0 < s_lo - v < US or 0 < v - e_hi < US):
+            elif fractional and 0 < s_lo - v < US:
                 rep.violation("C11:datetime-fractional-bound-truncated",
-                              what + ": bounds with fractional seconds are truncated to whole seconds", case, [s_lo, e_hi], v)
+                              what + ": a start with fractional seconds is truncated to a whole second", case, [s_lo, e_hi], v)
+            elif fractional and 0 < v - e_hi < US and s_lo // US == e_hi // US:
+                rep.violation("C11:datetime-same-second-end-overshoot",
+                              what + ": both bounds lie in the same whole second and the value passes the end", case,
+                              [s_lo, e_hi], v)
             elif offsets:
                 rep.violation("C11:datetime-offset-discarded",
                               what + ": outside the bounds as instants (the written UTC offset is ignored)",
@@ -1041,6 +1085,26 @@ def gen_date(rng, forced=True):
         e = list(s)
     if s[0] == "abs" and e[0] == "abs" and e[1] < s[1] and rng.random() < 0.75:
         s, e = e, s
+    prime = None
+    if rng.random() < 0.07:
+        # a bound given as an aware datetime near midnight, after an equal-instant datetime with another
+        # offset (hence another calendar date) was evaluated: parse_date must not answer from a cache
+        # keyed by instant (885750c)
+        tgt = rng.choice(["s", "e"])
+        sp = s if tgt == "s" else e
+        if sp[0] == "abs":
+            off = rng.choice([-300, 330, 480, -720])
+            tm = "23:30:00" if off < 0 else "00:30:00"
+            aware = ["abs", sp[1], "aware", tm, off]
+            d0 = _dt.datetime.fromisoformat(f"{sp[1]}T{tm}") - _dt.timedelta(minutes=off)  # the instant in UTC
+            prime = [["abs", d0.date().isoformat(), "aware", d0.strftime("%H:%M:%S"), 0]]
+            if tgt == "s":
+                s = aware
+            else:
+                e = aware
+    if prime:
+        return {"kind": "date", "via": rng.choice(["func", "func", "recipe"]), "start": s, "end": e,
+                "draws": _draws(rng, forced), "v3": rng.random() < 0.5, "prime": prime}
     return {"kind": "date", "via": rng.choice(["func", "func", "recipe"]), "start": s, "end": e,
             "draws": _draws(rng, forced), "v3": rng.random() < 0.5}
 
@@ -1142,6 +1206,8 @@ def _histogram(rep, case, real):
             rep.count("choice:has-zero-weight")
     elif k == "date":
         rep.count("date:spec:" + case["start"][0] + "/" + case["end"][0])
+        if case.get("prime"):
+            rep.count("date:primed-aware-datetime")
     elif k == "dt":
         rep.count("dt:spec:" + case["start"][0] + "/" + case["end"][0])
         if any(sp[0] == "stamp" and sp[3] for sp in (case["start"], case["end"])):
